@@ -190,14 +190,17 @@ pub struct Ref<'a> {
     pub quirk: Option<&'static str>,
     /// completion of the unspecified zone (only used when attributing a mismatch to a known defect model)
     pub unspec_as: Option<bool>,
+    /// TypeScript's own reading of null/undefined (they differ; an optional property may be absent or
+    /// undefined, not null).  Used where the compile-time engine is judged (C05-C07), not the validators.
+    pub ts_nullish: bool,
 }
 
 impl<'a> Ref<'a> {
     pub fn new(env: &'a Env, mode: Mode) -> Self {
-        Ref { env, mode, quirk: None, unspec_as: None }
+        Ref { env, mode, quirk: None, unspec_as: None, ts_nullish: false }
     }
     pub fn with_quirk(env: &'a Env, mode: Mode, q: &'static str) -> Self {
-        Ref { env, mode, quirk: Some(q), unspec_as: None }
+        Ref { env, mode, quirk: Some(q), unspec_as: None, ts_nullish: false }
     }
     #[allow(dead_code)]
     fn q(&self, name: &str) -> bool {
@@ -223,6 +226,8 @@ impl<'a> Ref<'a> {
         match d {
             D::Never => No,
             D::Any => Yes,
+            D::Null if self.ts_nullish => Tri::from_bool(matches!(v, JsVal::Null)),
+            D::Undefined | D::Void if self.ts_nullish => Tri::from_bool(matches!(v, JsVal::Undef)),
             D::Null | D::Undefined | D::Void => Tri::from_bool(v.is_nullish()),
             D::Bool => Tri::from_bool(matches!(v, JsVal::Bool(_))),
             D::BoolLit(b) => Tri::from_bool(matches!(v, JsVal::Bool(x) if x == b)),
@@ -407,52 +412,72 @@ impl<'a> Ref<'a> {
     /// If all members are (references to) object types, the object type with all their properties
     /// (shared keys get the intersection of their types); index signatures are kept when unique.
     pub fn merge_objects(&self, ms: &[D]) -> Option<D> {
-        let mut props: Vec<Prop> = vec![];
-        let mut index: Option<Box<D>> = None;
-        for m in ms {
-            match self.head(m) {
-                D::Object { props: ps, index: ix } => {
-                    for p in ps {
-                        if let Some(e) = props.iter_mut().find(|e| e.key == p.key) {
-                            if e.ty != p.ty {
-                                e.ty = D::Inter(vec![e.ty.clone(), p.ty.clone()]);
-                            }
-                            e.optional = e.optional && p.optional;
-                        } else {
-                            props.push(p.clone());
-                        }
-                    }
-                    if let Some(ix) = ix {
-                        index = Some(match index {
-                            None => ix.clone(),
-                            Some(old) => Box::new(D::Inter(vec![*old, (**ix).clone()])),
-                        });
-                    }
+        // flatten nested intersections of objects
+        let mut members: Vec<(Vec<Prop>, Option<Box<D>>)> = vec![];
+        fn flatten<'x>(r: &Ref<'x>, m: &D, out: &mut Vec<(Vec<Prop>, Option<Box<D>>)>, depth: usize) -> bool {
+            if depth > 20 {
+                return false;
+            }
+            match r.head(m) {
+                D::Object { props, index } => {
+                    out.push((props.clone(), index.clone()));
+                    true
                 }
-                D::Inter(inner) => {
-                    let merged = self.merge_objects(inner)?;
-                    if let D::Object { props: ps, index: ix } = merged {
-                        for p in ps {
-                            if let Some(e) = props.iter_mut().find(|e| e.key == p.key) {
-                                if e.ty != p.ty {
-                                    e.ty = D::Inter(vec![e.ty.clone(), p.ty.clone()]);
-                                }
-                                e.optional = e.optional && p.optional;
-                            } else {
-                                props.push(p);
-                            }
-                        }
-                        if let Some(ix) = ix {
-                            index = Some(match index {
-                                None => ix,
-                                Some(old) => Box::new(D::Inter(vec![*old, *ix])),
-                            });
-                        }
-                    }
-                }
-                _ => return None,
+                D::Inter(inner) => inner.iter().all(|x| flatten(r, x, out, depth + 1)),
+                _ => false,
             }
         }
+        for m in ms {
+            if !flatten(self, m, &mut members, 0) {
+                return None;
+            }
+        }
+        let mut keys: Vec<String> = vec![];
+        for (ps, _) in &members {
+            for p in ps {
+                if !keys.contains(&p.key) {
+                    keys.push(p.key.clone());
+                }
+            }
+        }
+        let mut props: Vec<Prop> = vec![];
+        for k in keys {
+            // every member constrains the key: through its declaration, or through its index signature
+            let mut tys: Vec<D> = vec![];
+            let mut optional = true;
+            for (ps, ix) in &members {
+                match ps.iter().find(|p| p.key == k) {
+                    Some(p) => {
+                        if !tys.contains(&p.ty) {
+                            tys.push(p.ty.clone());
+                        }
+                        optional = optional && p.optional;
+                    }
+                    None => {
+                        if let Some(ix) = ix {
+                            if !tys.contains(ix) {
+                                tys.push((**ix).clone());
+                            }
+                        }
+                    }
+                }
+            }
+            let ty = if tys.len() == 1 { tys.pop().unwrap() } else { D::Inter(tys) };
+            props.push(Prop { key: k, ty, optional });
+        }
+        let mut ixs: Vec<D> = vec![];
+        for (_, ix) in &members {
+            if let Some(ix) = ix {
+                if !ixs.contains(ix) {
+                    ixs.push((**ix).clone());
+                }
+            }
+        }
+        let index = match ixs.len() {
+            0 => None,
+            1 => Some(Box::new(ixs.pop().unwrap())),
+            _ => Some(Box::new(D::Inter(ixs))),
+        };
         Some(D::Object { props, index })
     }
 
@@ -505,7 +530,7 @@ impl<'a> Ref<'a> {
             let found = kv.iter().find(|(k, _)| *k == p.key).map(|(_, x)| x);
             let t = match found {
                 Some(x) => {
-                    if p.optional && x.is_nullish() {
+                    if p.optional && (if self.ts_nullish { matches!(x, JsVal::Undef) } else { x.is_nullish() }) {
                         Yes
                     } else {
                         self.member_fuel(&p.ty, x, fuel - 1)
